@@ -431,6 +431,52 @@ def h_sets(ctx):
     return Outcome(f"{mode}:{'ok' if not vs else 'bad'}", vs, nontrivial=(sname, mode, repr(ctx.choices)))
 
 
+# ------------------------------------------------------------------ encrypt_json on one object: refused, corrected, called again
+def h_retry(ctx):
+    """A JSON encryption object whose recipients have no key and no kid; the key comes from a key set. The first encrypt_json fails
+    (the allow-list lacks the algorithm, or the content encryption is mistyped); the caller corrects that and calls again on the SAME
+    object: the token names the member it was made for, and the private set decrypts it."""
+    from joserfc import jwe
+    kty_kind, alg = ctx.choose("alg/key", [("oct32", "A256KW"), ("rsa", "RSA-OAEP"), ("P-256", "ECDH-ES+A128KW")])
+    cls_name = ctx.choose("object", ["GeneralJSONEncryption", "FlattenedJSONEncryption"])
+    failure = ctx.choose("first_call_fails_because", ["allow-list lacks the alg", "enc mistyped", "no failure (control)"])
+    n_keys = ctx.choose("keys_in_set", [1, 2])
+    from joserfc.jwk import KeySet
+    jwks = [scen.key(kty_kind, i) for i in range(n_keys)]
+    pub_set = KeySet([A.jkey(j if j["kty"] == "oct" else rjwk.public_of(j), "dict") for j in jwks])
+    priv_set = KeySet([A.jkey(j, "dict") for j in jwks])
+    prot = {"enc": "A128GCM" if failure != "enc mistyped" else "A128GCN"}
+    obj = getattr(jwe, cls_name)(prot, b"secret")
+    obj.add_recipient({"alg": alg})
+    good = [alg, "A128GCM"]
+    seam.install()
+    seam.chooser = lambda seq: seq[-1]
+    vs = []
+    try:
+        if failure != "no failure (control)":
+            r1 = call(jwe.encrypt_json, obj, pub_set, algorithms=good if failure == "enc mistyped" else ["A128KW", "A128GCM"])
+            if r1.ok:
+                return Outcome("first-call-did-not-fail", [], nontrivial=None)
+            obj.protected["enc"] = "A128GCM"
+        r2 = call(jwe.encrypt_json, obj, pub_set, algorithms=good)
+    finally:
+        seam.chooser = None
+        seam.uninstall()
+    what = f"{alg} {cls_name}, set of {n_keys}, first call: {failure}"
+    if not r2.ok:
+        vs.append(viol("encrypt_json fails on an object whose earlier call was refused for a reason since corrected", f"{what}: {r2.exc!r}"))
+    else:
+        tok = r2.value
+        rh = (tok["recipients"][0].get("header") if "recipients" in tok else tok.get("header")) or {}
+        kids = [rjwk.thumbprint(rjwk.public_of(j)) for j in jwks]
+        if rh.get("kid") not in kids:
+            vs.append(viol("a token made from a key set does not name the member it was made for (kid missing after a retried call)", f"{what}: recipient header {rh}"))
+        d = call(lambda: bytes(jwe.decrypt_json(copy.deepcopy(tok), priv_set, algorithms=good).plaintext))
+        if not d.ok or d.value != b"secret":
+            vs.append(viol("the private key set cannot decrypt a token its public twin produced after a retried call", f"{what}: {d.exc!r}"))
+    return Outcome(f"retry:{'ok' if not vs else 'bad'}", vs, nontrivial=(alg, cls_name, failure, n_keys))
+
+
 # ------------------------------------------------------------------ KeySet subclasses, defined at different moments
 SUB_OPS = [("sign", "HS256", "oct"), ("sign", "ES256", "EC"), ("sign", "RS256", "RSA"), ("encrypt", "A256KW", "oct"), ("encrypt", "RSA-OAEP", "RSA"),
            ("encrypt", "ECDH-ES", "EC"), ("encrypt", "ECDH-1PU", "EC")]
@@ -492,6 +538,7 @@ def h_subclass(ctx):
 class SetModel:
     fresh_import = False
     MENU = ["sign-nokid-pick0", "sign-nokid-pick-last", "verify-member0", "verify-last", "lookup-all", "lookup-removed", "export-public",
+            "export-then-the-caller-edits-the-document",
             "rotate-first-in-place", "rotate-last-in-place", "append-new", "append-untouched-with-own-kid", "remove-first", "encrypt-nokid-pick0",
             "decrypt-last"]
 
@@ -586,6 +633,17 @@ class SetModel:
                 c = call(ks.get_by_kid, m["kid"])
                 if c.ok:
                     out["viol"].append(("lookup by kid returns a key that was removed from the set", m["kid"]))
+        elif op == "export-then-the-caller-edits-the-document":
+            # the exported JWK Set is the caller's: it strips private members and relabels entries to publish it
+            for private in (None, False):
+                d = call(lambda: ks.as_dict() if private is None else ks.as_dict(private=False))
+                if d.ok:
+                    for e in d.value["keys"]:
+                        for m in ("d", "k", "p", "q", "dp", "dq", "qi"):
+                            e.pop(m, None)
+                        e["kid"] = "published-" + str(e.get("kid"))
+                        e.pop("x", None)
+                        e.pop("n", None)
         elif op == "export-public":
             d = call(ks.as_dict)
             if d.ok and [e.get("kid") for e in d.value["keys"]] != cur_kids:
@@ -647,11 +705,14 @@ def set_histories(tier):
 
 
 _ps = Part("set-import-export", h_sets, split_depth=2)
+_pr = Part("encrypt-json-retried-on-one-object", h_retry, split_depth=2)
+_pr.single_bucket_ok = True
 PARTS = [
     Part("consume-by-kid", h_consume, split_depth=3),
     Part("consume-several-entries", h_consume_multi, split_depth=3),
     Part("produce-from-set", h_produce, split_depth=3),
     _ps,
     Part("key-set-subclasses", h_subclass, split_depth=2),
+    _pr,
     Part("shared-set-histories", custom=set_histories, engine="E2"),
 ]
